@@ -64,13 +64,45 @@ THEOREMS = [
      "forall (St P Rep : Type) (serve : nat -> St -> P -> St * Rep) (refuse : Rep) (ops : list op) (c : collection) "
      "(st : nat -> St) (r : srequest P), build ops = Ok c -> server_step St P Rep serve refuse V1 c st r "
      "= Ok (rstep St (srequest P) Rep (spec_serve St P Rep serve) (spec_route P ops) refuse st r)"),
-    ("connection_histories_eq_spec",
-     "forall (ops : list op) (c : collection), build ops = Ok c -> forall (reqs : list (list bytes * bytes)) (st : nat -> hstate), "
-     "Forall (fun r => fst r <> [] \\/ default_index O ops <> None) reqs -> "
-     "conn_history V1 c st reqs = map Ok (conn_spec ops st reqs)"),
+    ("wire_histories_eq_spec",
+     "forall auth_ok : bytes -> bool, (forall h, auth_ok h = true -> is_text h) -> "
+     "forall (ops : list op) (c : collection), build ops = Ok c -> forall (reqs : list wreq) (st : nat -> hstate), "
+     "Forall (fun r => wf_wreq r /\\ tls_refused ops r = false) reqs -> "
+     "wire_history auth_ok fixed c st reqs = map Ok (wire_spec ops st reqs)"),
+    ("sni_decides",
+     "forall (ops : list op) (r : wreq) (s : bytes), w_tls r = true -> w_sni r = Some s -> "
+     "wire_route ops r = reference_general ops (Some s) None"),
+    ("tls_never_409",
+     "forall auth_ok : bytes -> bool, (forall h, auth_ok h = true -> is_text h) -> "
+     "forall (ops : list op) (c : collection) (st st' : nat -> hstate) (r : wreq), build ops = Ok c -> wf_wreq r -> "
+     "w_tls r = true -> wire_request auth_ok fixed c st r <> Ok (st', W409)"),
+    ("tls_refusal_changes_nothing",
+     "forall (auth_ok : bytes -> bool) (ops : list op) (c : collection) (st : nat -> hstate) (r : wreq) (fx : fixes), "
+     "build ops = Ok c -> tls_refused ops r = true -> wire_request auth_ok fx c st r = Ok (st, WNoTls)"),
+    ("authority_parser_irrelevant",
+     "forall (auth1 auth2 : bytes -> bool) (ops : list op) (c : collection) (st : nat -> hstate) (r : wreq), "
+     "(forall h, auth1 h = true -> is_text h) -> (forall h, auth2 h = true -> is_text h) -> build ops = Ok c -> wf_wreq r -> "
+     "wire_request auth1 fixed c st r = wire_request auth2 fixed c st r"),
+    ("wire_isolation",
+     "forall (ops : list op) (reqs reqs' : list wreq) (st st' : nat -> hstate) (i : nat), st i = st' i -> "
+     "filter (wire_routed_to ops i) reqs = filter (wire_routed_to ops i) reqs' -> "
+     "wire_replies_for ops i reqs (wire_spec ops st reqs) = wire_replies_for ops i reqs' (wire_spec ops st' reqs')"),
     ("absent_host_refuted",
-     "exists ops c p, build ops = Ok c /\\ conn_history V1 c (fun _ => hstate0) [([], p)] = [Ok WClosed] /\\ "
-     "conn_spec ops (fun _ => hstate0) [([], p)] = [W409]"),
+     "forall auth_ok : bytes -> bool, exists ops c r, build ops = Ok c /\\ "
+     "wire_history auth_ok snapshot c (fun _ => hstate0) [r] = [Ok WClosed] /\\ "
+     "wire_spec ops (fun _ => hstate0) [r] = [W409] /\\ wire_history auth_ok fixed c (fun _ => hstate0) [r] = [Ok W409]"),
+    ("bad_authority_refuted",
+     "forall auth_ok : bytes -> bool, auth_ok (B \"a b\") = false -> exists ops c r, build ops = Ok c /\\ "
+     "wire_history auth_ok (mkFixes true false false) c (fun _ => hstate0) [r] = [Ok WClosed] /\\ "
+     "wire_spec ops (fun _ => hstate0) [r] = [W200 1 1] /\\ wire_history auth_ok fixed c (fun _ => hstate0) [r] = [Ok (W200 1 1)]"),
+    ("h2_authority_refuted",
+     "forall auth_ok : bytes -> bool, exists ops c r, build ops = Ok c /\\ "
+     "wire_history auth_ok (mkFixes true true false) c (fun _ => hstate0) [r] = [Ok (W200 1 1)] /\\ "
+     "wire_spec ops (fun _ => hstate0) [r] = [W200 0 1] /\\ wire_history auth_ok fixed c (fun _ => hstate0) [r] = [Ok (W200 0 1)]"),
+    ("tls_handshake_refuted",
+     "forall auth_ok : bytes -> bool, exists ops c ra rb, build ops = Ok c /\\ tls_refused ops ra = true /\\ tls_refused ops rb = true /\\ "
+     "wire_history auth_ok fixed c (fun _ => hstate0) [ra] = [Ok WNoTls] /\\ wire_spec ops (fun _ => hstate0) [ra] = [W409] /\\ "
+     "wire_history auth_ok fixed c (fun _ => hstate0) [rb] = [Ok WNoTls] /\\ wire_spec ops (fun _ => hstate0) [rb] = [W200 0 1]"),
 ]
 RULE = ("(a) direct calls of HostCollection::builder().insert/.default(..).build() and Collection::get_from_request / get_host / "
         "get_or_default / get_default / clear_file / clear_file_caches on the real code against the Coq model (correspondence) and the "
@@ -195,50 +227,118 @@ def random_ops(rng, pool, maxhosts=4):
     return ops
 
 
-# ---- loopback histories -------------------------------------------------------------------------
+# ---- histories over loopback connections (plain HTTP/1.x, TLS + HTTP/1.1, TLS + HTTP/2) ------------------
 PATHS = [b"/h/page", b"/h/page?q=1", b"/h/other", b"/f.txt", b"/g.txt"]
 CONN_HOSTS = [b"localhost", b"localhost:8080", b"127.0.0.1", b"127.0.0.1:80", b"[::1]", b"[::1]:443", b"unknown.test", b"LOCALHOST"]
+# Host values that are not URI authorities (before e25cce6: connection closed / path changed)
+BAD_AUTH = [b"", b"a b", b"[::1", b"localhost:80:80", b":80", b"\xe4.test", b"a\ttest", b"a.test/x", b"a.test?q", b"a.test#f", b"@", b"a.test:", b"::1"]
+H2_AUTH = [b"localhost", b"localhost:8443", b"127.0.0.1:8443", b"[::1]:8443", b"unknown.test", b"LOCALHOST"]
+SNIS = [b"unknown.test", b"localhost", b"www.unknown.test"]
+PLAIN, TLS1, H2 = 0, 1, 2
+F_GZIP, F_IMS_FUTURE, F_IMS_PAST = 1, 2, 4
 
 
-def conn_case(rng, kind, ops=None, n=None, reqs=None):
-    if reqs is not None:
-        xr = [xl(xlist([xb(h) for h in hh]), xb(path)) for hh, path in reqs]
-        return Case("hosts.conn", xl(x_ops(ops), xlist(xr)), "hosts.conn_spec", {"kind": kind}, "dev")
-    return _conn_case(rng, kind, ops, n)
+def x_whosts(hosts):
+    return xlist([xl(xbool(d), xb(n), xlist([xb(a) for a in alts]), xn(o)) for d, n, alts, o in hosts])
 
 
-def _conn_case(rng, kind, ops=None, n=None):
+def wreq(tr=PLAIN, sni=None, v10=False, method=b"GET", hh=(), auth=None, path=b"/h/page", flags=0):
+    return xl(xn(tr), xopt(None if sni is None else xb(sni)), xbool(v10), xb(method), xlist([xb(h) for h in hh]),
+              xopt(None if auth is None else xb(auth)), xb(path), xn(flags))
+
+
+def wire_case(kind, hosts, reqs):
+    hosts = [h if len(h) == 4 else (h[0], h[1], h[2], 0) for h in hosts]
+    return Case("hosts.wire", xl(x_whosts(hosts), xlist(reqs)), "hosts.wire_spec", {"kind": kind}, "dev")
+
+
+def random_wire_case(rng, kind, n=None):
     pool = NAMES + [b"d.test", b"localhost"]
-    if ops is None:
+    ops = random_ops(rng, pool)
+    while len(ops) < 2 or sum(1 for o in ops if o[0]) > 1:
         ops = random_ops(rng, pool)
-        while len(ops) < 2 or sum(1 for o in ops if o[0]) > 1:
-            ops = random_ops(rng, pool)
+    hosts = []
+    for i, (d, nm, alts) in enumerate(ops):
+        o = 0
+        if i > 0 and rng.random() < 0.25:
+            o |= 1          # Host::clone_without_extensions of the host before
+        if i > 0 and rng.random() < 0.2:
+            o |= 2          # shares Host::path with host 0
+        hosts.append((d, nm, alts, o))
     configured = sorted({x for _, nm, alts in ops for x in [nm] + list(alts)})
     n = n or rng.randint(6, 14)
     reqs = []
-    # identical paths on alternating hosts
-    p0 = rng.choice(PATHS[:3])
+    p0 = rng.choice(PATHS[:3])        # identical paths on alternating hosts
     for i in range(n):
-        r = rng.random()
-        if r < 0.62:
-            h = configured[i % len(configured)] if rng.random() < 0.7 else rng.choice(configured)
-            f = rng.random()
-            if f < 0.12:
-                h = h + b"."
-            elif f < 0.18:
-                h = h.upper()
-            elif f < 0.24:
-                h = h + b":8080"
-            hh = [h]
-        elif r < 0.9:
-            hh = [rng.choice(CONN_HOSTS)]
-        elif r < 0.95:
-            hh = []
-        else:
-            hh = [rng.choice(configured), rng.choice(configured)]
+        tr = rng.choice([PLAIN, PLAIN, TLS1, H2])
         path = p0 if rng.random() < 0.6 else rng.choice(PATHS)
-        reqs.append(xl(xlist([xb(h) for h in hh]), xb(path)))
-    return Case("hosts.conn", xl(x_ops(ops), xlist(reqs)), "hosts.conn_spec", {"kind": kind}, "dev")
+        handler = path.startswith(b"/h")
+        h = configured[i % len(configured)] if rng.random() < 0.7 else rng.choice(configured)
+        sni, auth, hh = None, None, []
+        if tr != PLAIN:
+            r = rng.random()
+            sni = None if r < 0.22 else rng.choice(SNIS) if r < 0.4 else rng.choice(configured)
+        if tr == H2:
+            r = rng.random()
+            auth = (h if r < 0.5 else h + b":8443" if r < 0.6 else h + b"." if r < 0.68 else h.upper() if r < 0.74 else rng.choice(H2_AUTH))
+            if rng.random() < 0.15:
+                hh = [rng.choice(configured + [b"unknown.test", b"\xe4.test"])]
+        else:
+            r = rng.random()
+            if r < 0.55:
+                f = rng.random()
+                hh = [h + b"." if f < 0.12 else h.upper() if f < 0.18 else h + b":8080" if f < 0.24 else h]
+            elif r < 0.75:
+                hh = [rng.choice(CONN_HOSTS)]
+            elif r < 0.87:
+                hh = [rng.choice(BAD_AUTH)]
+            elif r < 0.94:
+                hh = []
+            else:
+                hh = [rng.choice(configured), rng.choice(configured)]
+        method, flags = b"GET", 0
+        if rng.random() < 0.33:
+            flags |= F_GZIP
+        if handler:
+            method = rng.choice([b"GET"] * 7 + [b"HEAD", b"POST", b"PUT"])
+            r = rng.random()
+            flags |= F_IMS_FUTURE if r < 0.12 else F_IMS_PAST if r < 0.2 else 0
+        v10 = tr != H2 and rng.random() < 0.08
+        reqs.append(wreq(tr, sni, v10, method, hh, auth, path, flags))
+    return wire_case(kind, hosts, reqs)
+
+
+def wire_corpus():
+    ab = [(False, b"a.test", [b"www.a.test"]), (False, b"b.test", [])]
+    abd = [(False, b"a.test", [b"www.a.test"]), (True, b"b.test", [])]
+    P = b"/h/page"
+    out = []
+    out.append(wire_case("history-corpus", ab, [wreq(hh=[h]) for h in [b"a.test", b"b.test"] * 4]))
+    out.append(wire_case("history-corpus", ab, [wreq(hh=[h], path=b"/f.txt") for h in [b"a.test", b"b.test", b"www.a.test", b"b.test."] * 2]))
+    out.append(wire_case("history-corpus", ab, [wreq(hh=[b"a.test"]), wreq(hh=[]), wreq(hh=[b"b.test"]), wreq(hh=[b"nobody.test"]),
+                                                wreq(hh=[b"[::1]:8080"]), wreq(hh=[b"a.test:8080"]), wreq(hh=[b"a.test"])]))
+    out.append(wire_case("history-corpus", [(False, b"a.test", [b"x.test"]), (True, b"b.test", [b"a.test"])],
+                         [wreq(hh=[h]) for h in [b"x.test", b"b.test", b"a.test", b"zzz", b"x.test", b"b.test"]] + [wreq(hh=[])]))
+    # the three defects repaired in this round (Properties/C15.v *_refuted) and the known class
+    for hosts in (ab, abd):
+        out.append(wire_case("history-corpus", hosts, [wreq(hh=[]), wreq(hh=[], v10=True), wreq(tr=TLS1, sni=b"a.test", hh=[]), wreq(hh=[b"a.test"])]))
+        out.append(wire_case("history-corpus", hosts, [wreq(hh=[h]) for h in BAD_AUTH] + [wreq(hh=[b"a.test"])]))
+        out.append(wire_case("history-corpus", hosts, [wreq(tr=H2, sni=None, auth=b"a.test"), wreq(tr=H2, sni=None, auth=b"b.test"),
+                                                       wreq(tr=H2, sni=None, auth=b"localhost:8443"), wreq(tr=H2, sni=None, auth=b"a.test", hh=[b"b.test"])]))
+        out.append(wire_case("history-corpus", hosts, [wreq(tr=TLS1, sni=b"nobody.test", hh=[b"a.test"]), wreq(tr=TLS1, sni=None, hh=[b"localhost"]),
+                                                       wreq(tr=H2, sni=b"nobody.test", auth=b"a.test"), wreq(tr=TLS1, sni=b"a.test", hh=[b"a.test"])]))
+        # the SNI wins over Host header and :authority
+        out.append(wire_case("history-corpus", hosts, [wreq(tr=TLS1, sni=b"a.test", hh=[b"b.test"]), wreq(tr=TLS1, sni=b"b.test", hh=[b"a.test"]),
+                                                       wreq(tr=H2, sni=b"a.test", auth=b"b.test"), wreq(tr=H2, sni=b"b.test", auth=b"a.test"),
+                                                       wreq(tr=TLS1, sni=b"localhost", hh=[b"b.test"]), wreq(hh=[b"a.test"]), wreq(hh=[b"b.test"])]))
+    # methods and conditional requests on identical paths of two hosts; a clone and a host sharing the path of host 0
+    cl = [(False, b"a.test", [], 0), (False, b"b.test", [], 1), (False, b"c.test", [], 2), (False, b"d.test", [], 3)]
+    out.append(wire_case("history-corpus", cl, [wreq(hh=[h], path=p, flags=F_GZIP) for p in (P, b"/f.txt") for h in [b"a.test", b"b.test", b"c.test", b"d.test"] * 2]))
+    out.append(wire_case("history-corpus", cl, [wreq(hh=[b"a.test"], method=b"HEAD"), wreq(hh=[b"b.test"], method=b"POST"), wreq(hh=[b"a.test"]),
+                                                wreq(hh=[b"b.test"]), wreq(hh=[b"a.test"], flags=F_IMS_FUTURE), wreq(hh=[b"b.test"], flags=F_IMS_PAST),
+                                                wreq(hh=[b"c.test"], flags=F_IMS_FUTURE), wreq(hh=[b"c.test"], flags=F_IMS_FUTURE), wreq(hh=[b"a.test"], method=b"POST"),
+                                                wreq(hh=[b"a.test"], method=b"PUT"), wreq(hh=[b"a.test"])]))
+    return out
 
 
 def generate(rng, tier):
@@ -265,7 +365,7 @@ def generate(rng, tier):
         for _ in range(6000):
             hosts = [rng.choice(menu) for _ in range(4)]
             cases.append(lookup_case(rng.choice(with_defaults(hosts)), rng, "sampled-4"))
-        nrand, nconn = 6000, 400
+        nrand, nconn = 6000, 600
     else:
         for hosts in itertools.product(menu, repeat=1):
             for ops in with_defaults(hosts):
@@ -274,21 +374,14 @@ def generate(rng, tier):
             k = rng.choice([2, 2, 3, 3, 4])
             hosts = [rng.choice(menu) for _ in range(k)]
             cases.append(lookup_case(rng.choice(with_defaults(hosts)), rng, "sampled-%d" % k))
-        nrand, nconn = 500, 60
+        nrand, nconn = 500, 70
     pool = NAMES + EXTRA_NAMES
     for _ in range(nrand):
         cases.append(lookup_case(random_ops(rng, pool), rng, "random"))
     # ---- (b) histories over loopback connections
-    ab = [(False, b"a.test", [b"www.a.test"]), (False, b"b.test", [])]
-    cases.append(conn_case(rng, "history-corpus", ops=ab, reqs=[([h], b"/h/page") for h in [b"a.test", b"b.test"] * 4]))
-    cases.append(conn_case(rng, "history-corpus", ops=ab, reqs=[([h], b"/f.txt") for h in [b"a.test", b"b.test", b"www.a.test", b"b.test."] * 2]))
-    cases.append(conn_case(rng, "history-corpus", ops=ab, reqs=[([b"a.test"], b"/h/page"), ([], b"/h/page"), ([b"b.test"], b"/h/page"),
-                                                               ([b"nobody.test"], b"/h/page"), ([b"[::1]:8080"], b"/h/page"),
-                                                               ([b"a.test:8080"], b"/h/page"), ([b"a.test"], b"/h/page")]))
-    cases.append(conn_case(rng, "history-corpus", ops=[(False, b"a.test", [b"x.test"]), (True, b"b.test", [b"a.test"])],
-                           reqs=[([h], b"/h/page") for h in [b"x.test", b"b.test", b"a.test", b"zzz", b"x.test", b"b.test"]] + [([], b"/h/page")]))
+    cases += wire_corpus()
     for _ in range(nconn):
-        cases.append(conn_case(rng, "history"))
+        cases.append(random_wire_case(rng, "history"))
     return cases
 
 
@@ -299,22 +392,32 @@ def _entries(text):
     return x[1][1][1]
 
 
-CLOSED = ("L", [("N", 0), ("L", [("N", 0)])])
+NOTLS = ("L", [("N", 0), ("L", [("N", 1)])])
 R409 = ("L", [("N", 0), ("L", [("N", 409)])])
 
 
 def spec_ok(c, i, s):
-    if c.comp == "hosts.conn":
-        if i == s:
-            return True
-        ie, se = _entries(i), _entries(s)
-        reqs = c.x[1][1][1]
-        has_default = any(o[1][0] == ("N", 1) for o in c.x[1][0][1])
-        if ie is not None and se is not None and len(ie) == len(se) == len(reqs):
-            diff = [k for k in range(len(ie)) if ie[k] != se[k]]
-            if diff and not has_default and all(ie[k] == CLOSED and se[k] == R409 and reqs[k][1][0][1] == [] for k in diff):
-                c.meta["class"] = "absent-host-closed"
-        return False
+    if c.comp == "hosts.wire":
+        xi, xs = xparse(i), xparse(s)
+        if xi[0] != "L" or xs[0] != "L" or len(xs[1]) != 3 or len(xi[1]) != 2:
+            return i == s            # build outcome: (L (N 2)) on both sides
+        ie, se, refused = xi[1][1][1], xs[1][1][1], xs[1][2][1]
+        if len(ie) != len(se):
+            return False
+        # known class tls-handshake-refused: the handshake is refused where the specification answers 409 or routes by the Host
+        # header.  Where the specification would have served the request its state moves on and the implementation's does not:
+        # the rest of such a history is compared with the model only.
+        for k in range(len(ie)):
+            if ie[k] == se[k]:
+                continue
+            if refused[k] == ("N", 1) and ie[k] == NOTLS:
+                c.meta["class"] = "tls-handshake-refused"
+                if se[k] != R409:
+                    break
+                continue
+            c.meta.pop("class", None)
+            return False
+        return "class" not in c.meta
     ie, se = _entries(i), _entries(s)
     if ie is None or se is None:
         return i == s            # build outcome: (L (N 2)) on both sides
